@@ -886,6 +886,11 @@ func (env *Zlisp) Run() (Sexp, error) {
 
 	for env.pc != -1 && !env.ReachedEnd() {
 		instr := env.curfunc.fun[env.pc]
+		if verr := env.verifStep(); verr != nil {
+			env.restoreControlState(runState)
+			env.pc = functionSize(env.curfunc)
+			return SexpNull, verr
+		}
 		if env.debugExec {
 			fmt.Printf("\n ====== in '%s', about to run: '%v'\n",
 				env.curfunc.name, instr.InstrString())
